@@ -441,7 +441,7 @@ class Session:
         with warnings.catch_warnings(record=True) as w:
             warnings.simplefilter("always")
             try:
-                with time_limit(5.0):         # a loop of the implementation that never ends must not hang the check
+                with time_limit(0.75):        # a loop of the implementation that never ends must not hang the check
                     ob = self.run_op(o)
             except RuntimeError:
                 raise
